@@ -4,6 +4,7 @@ import (
 	"fmt"
 	"os"
 	"runtime"
+	"time"
 
 	"verifharness/internal/dbwrap"
 )
@@ -13,6 +14,7 @@ type FaultEvent struct {
 	Op       int
 	OpKind   OpKind
 	CallKind dbwrap.Kind // kind of the database call that failed
+	Site     string      // wallet function that made the failing call
 	Injected int
 	Outcome  string // "failed" (the operation reported the failure), "recovered" (it succeeded all the same), "background"
 }
@@ -80,7 +82,7 @@ func RunFault(s *Script, pick func(op int) int, repeat bool, twin *Twin) (*Fault
 		out := r.Exec(i)
 		ctl.Disarm()
 		inj := ctl.NInjected()
-		ev := FaultEvent{Op: i, OpKind: op.Kind, CallKind: ctl.FirstKind, Injected: inj}
+		ev := FaultEvent{Op: i, OpKind: op.Kind, CallKind: ctl.FirstKind, Site: ctl.FirstSite, Injected: inj}
 		if inj == 0 {
 			if out.Err != nil && !twin.OpErr[i] {
 				return fail("operation-fails-later:"+op.Kind.String(), "operation %d (%v) failed without a fault: %v (earlier faults: %v)", i, op.Kind, out.Err, res.Events)
@@ -92,12 +94,26 @@ func RunFault(s *Script, pick func(op int) int, repeat bool, twin *Twin) (*Fault
 		case op.Kind == OpWait:
 			// the worker retries by itself; make sure it is done
 			ev.Outcome = "background"
-			if w := r.Exec(i); w.Err != nil {
+			if out.Err != nil {
+				r.WaitLimit = 4 * time.Second
+			}
+			w := r.Exec(i)
+			r.WaitLimit = 30 * time.Second
+			if w.Err != nil {
 				if debug {
 					buf := make([]byte, 1<<20)
 					fmt.Fprintf(os.Stderr, "STUCK\n%s\n", buf[:runtime.Stack(buf, true)])
 				}
-				return fail("background-task-stuck-after-fault:"+tag, "operation %d: after a storage fault (%v call) in the background work the tasks do not finish: %v", i, ev.CallKind, w.Err)
+				task := "?"
+				for b := i - 1; b >= 0; b-- {
+					if k := s.Ops[b].Kind; k == OpImport || k == OpRemove {
+						task = k.String()
+						break
+					}
+				}
+				return fail("background-"+task+"-stuck-after-fault:"+ev.Site+"/"+ev.CallKind.String(),
+					"operation %d: after %d consecutive storage fault(s) in the background %s (first: %v call made by %s) the wallet never settles: %v; Wallets() says: %s",
+					i, inj, task, ev.CallKind, ev.Site, w.Err, r.walletsLine())
 			}
 		case out.Err == nil:
 			ev.Outcome = "recovered"
@@ -167,8 +183,13 @@ func RunFault(s *Script, pick func(op int) int, repeat bool, twin *Twin) (*Fault
 				if debug {
 					fmt.Fprintf(os.Stderr, "TWIN AFTER OP\n%s\nFAULTED AFTER RETRY\n%s\n", twin.Snap[i], now)
 				}
-				return fail("state-differs-after-"+ev.Outcome+"-"+tag+":"+field, "operation %d (%v), fault at database call %d (%v), outcome %s: afterwards the wallet reports [%s], the fault-free run [%s]",
-					i, op.Kind, j, ev.CallKind, ev.Outcome, b, a)
+				key := "state-differs-after-" + ev.Outcome + "-" + tag + ":" + field
+				if ev.Outcome == "recovered" || ev.Outcome == "background" {
+					// the operation went on although a database call failed: the error was swallowed
+					key = "fault-swallowed:" + ev.Site
+				}
+				return fail(key, "operation %d (%v), fault at database call %d (%v call made by %s), outcome %s: afterwards the wallet reports [%s], the fault-free run [%s]",
+					i, op.Kind, j, ev.CallKind, ev.Site, ev.Outcome, b, a)
 			}
 		}
 	}
@@ -193,4 +214,12 @@ func traceKey(op OpKind, call dbwrap.Kind, field string) string {
 		return "newaddress-failed-leaves-cached-address"
 	}
 	return "failed-" + op.String() + "/" + call.String() + "-leaves-trace:" + field
+}
+
+func (r *Run) walletsLine() string {
+	ws, err := r.W.WM.Wallets()
+	if err != nil {
+		return "error: " + err.Error()
+	}
+	return fmt.Sprintf("%d wallets", len(ws))
 }
